@@ -873,6 +873,64 @@ class CFile:
                 return locd[k]["offset"]
         return None
 
+    def text_globals(self):
+        """File-scope object declarations found by a brace-depth scan of the source text (comments, strings and preprocessor lines
+        removed).  Needed where the AST was dumped through a name filter (the Python.h translation unit is too large to dump whole):
+        a NEW file-scope object has a name no filter can anticipate.  -> [(name, declaration text, line)]"""
+        import re
+        src = self.src
+        src = re.sub(r"/\*.*?\*/", lambda m: re.sub(r"[^\n]", " ", m.group(0)), src, flags=re.S)
+        src = re.sub(r"//[^\n]*", lambda m: " " * len(m.group(0)), src)
+        src = re.sub(r'"(?:\\.|[^"\\\n])*"', lambda m: '"' + " " * (len(m.group(0)) - 2) + '"', src)
+        src = re.sub(r"(?m)^[ \t]*#[^\n]*(?:\\\n[^\n]*)*", lambda m: re.sub(r"[^\n]", " ", m.group(0)), src)
+        out = []
+        depth = 0
+        start = 0
+        i = 0
+        n = len(src)
+        chunk_has_block = False
+        while i < n:
+            ch = src[i]
+            if ch == "{":
+                if depth == 0:
+                    chunk_has_block = True
+                    head = src[start:i]
+                depth += 1
+            elif ch == "}":
+                depth -= 1
+                if depth == 0:
+                    # end of a top-level block: function body, or initialiser (then a ';' follows)
+                    j = i + 1
+                    while j < n and src[j] in " \t\r\n":
+                        j += 1
+                    if j < n and src[j] == ";":
+                        i = j
+                        out.append(("var", head, start))
+                    else:
+                        out.append(("func" if head.rstrip().endswith(")") else "block", head, start))
+                    start = i + 1
+                    chunk_has_block = False
+            elif ch == ";" and depth == 0:
+                text = src[start:i]
+                if text.strip():
+                    out.append(("proto" if text.rstrip().endswith(")") else "var", text, start))
+                start = i + 1
+            i += 1
+        res = []
+        for kind, text, off in out:
+            if kind != "var":
+                continue
+            t = " ".join(text.split())
+            if not t or t.startswith(("typedef", "extern")) and "=" not in t:
+                continue
+            lhs = t.split("=")[0]
+            m = re.findall(r"[A-Za-z_]\w*", re.sub(r"\[[^\]]*\]", "", lhs))
+            if not m:
+                continue
+            line = 1 + self.src.count("\n", 0, off + len(text) - len(text.lstrip()))
+            res.append((m[-1], t[:120], line))
+        return res
+
     @staticmethod
     def pb(n):
         return n.get("_pb")
